@@ -359,9 +359,9 @@ theorem step_keeps_other_cells (e e' : Eng R P O B) (op : Op B) (h : e.step trai
           rw [hl] at r1; simp only [] at r1
           by_cases hc : (σ' == e.sigma && q' == e.q) = true
           · rw [if_pos hc] at r1; simp only [Except.ok.injEq] at r1; subst r1
-            simp only [alloc_snd, alloc_next, set_next]
+            simp only [alloc_snd, alloc_next]
             refine ⟨by omega, by omega, by omega, ?_⟩
-            rw [get_alloc_old _ _ (by simpa using hr), get_set_ne _ _ hne]
+            rw [get_alloc_old _ _ (by simpa using hr)]
           · rw [if_neg hc] at r1; cases r1
       · simp only [Except.ok.injEq] at r1; subst r1
         exact ⟨hv, hr, hne, get_set_ne _ _ hne⟩
@@ -434,11 +434,12 @@ def dictAfter (m : Mech) : Option (List (Nat × Nat × Nat) × List (Nat × Nat 
       r.2.href.map fun hr => (e'.heap.get hr, e'.history)).toOption.bind id
 
 /-- … so the next accounted step shows through in that dict: for RDP/PRV it gains the step, for GDP
-it is left empty (popped) while the accountant moves on to a fresh list. -/
+the dict keeps the two steps it was saved with while the accountant moves on to a fresh list (GDP
+`step` rebinds `self.history`; since fix bb38b4c it no longer pops the old list). -/
 theorem load_aliasing_witness :
     dictAfter .rdp = some ([(1, 1, 3)], [(1, 1, 3)]) ∧
     dictAfter .prv = some ([(1, 1, 3)], [(1, 1, 3)]) ∧
-    dictAfter .gdp = some ([], [(1, 1, 3)]) := by
+    dictAfter .gdp = some ([(1, 1, 2)], [(1, 1, 3)]) := by
   refine ⟨by decide, by decide, by decide⟩
 
 end Opacus.C16
